@@ -150,8 +150,42 @@ def plan(tier, seed):
     phases.append({'name': 'literals', 'cases': gen_literals(tier), 'runner': 'run_literals', 'chunk': 400})
     # text literals: the characters between the quotes are the operand, whatever they look like
     tl = [{'t': i, 'u': j} for i in range(len(TEXT_LITS)) for j in range(len(TEXT_LITS))]
+    # operands in columns of two and three letters (workbook values and overrides addressed by letters)
+    phases.append({'name': 'wide-column-operands', 'cases': [{'ov': m} for m in range(1 << len(WIDE_CELLS))], 'runner': 'run_wide',
+                   'chunk': 8})
     phases.append({'name': 'text-literals', 'cases': tl, 'runner': 'run_text_literals', 'chunk': 100})
     return phases
+
+
+WIDE_CELLS = {'A1': 100, 'Z1': 200, 'AA1': 3, 'AZ1': 5, 'BA1': 7, 'XFD1': 11}
+WIDE_FORMS = {'A3': ('=AA1*2', lambda v: v['AA1'] * 2), 'A4': ('=AZ1-BA1%', lambda v: v['AZ1'] - v['BA1'] / 100),
+              'A5': ('=-XFD1&AA1', lambda v: R.text_form(-v['XFD1']) + R.text_form(v['AA1'])), 'A6': ('=AA1=A1', lambda v: v['AA1'] == v['A1']),
+              'A7': ('=A1+Z1+AA1+AZ1+BA1+XFD1', lambda v: sum(v.values())), 'A8': ('=$AA$1<BA$1', lambda v: v['AA1'] < v['BA1'])}
+
+
+def run_wide(cases, stats):
+    from mc import sweep as SW
+    cls = SW.get_class([('S', dict(WIDE_CELLS, **{a: f for a, (f, _) in WIDE_FORMS.items()}))], stats=stats)
+    vio = []
+    names = list(WIDE_CELLS)
+    for i, c in enumerate(cases):
+        vals = dict(WIDE_CELLS)
+        ov = []
+        for k, a in enumerate(names):
+            if c['ov'] >> k & 1:
+                vals[a] = 1000 + 17 * k
+                ov.append((a, vals[a]))
+        outs = SW.run(cls, ov, list(WIDE_FORMS), stats)
+        for (a, (f, fn)), o in zip(WIDE_FORMS.items(), outs):
+            w = fn(vals)
+            stats['validated'] += 1
+            stats['nontrivial'] += 1
+            ok, _ = R.same_value(w, o, 1e-14)
+            if not ok:
+                vio.append({'i': i, 'desc': {'lvl': 'WIDE', 'src': 'ov' if ov else 'cell', 'form': f,
+                                             'outcome': o[0] if o[0] != 'VALUE' else 'VALUE_MISMATCH'},
+                            'expected': D.enc(w), 'observed': [f, D.enc(o[1]) if o[0] == 'VALUE' else list(o), ov]})
+    return vio
 
 
 TEXT_LITS = ['a b', 'a  b', 'a\tb', 'a\nb', 'a \n b', ' a', 'a ', '  ', '', 'A', 'a', "it's", '1', '1 ', '(', ')', 'SUM(1)', 'sum(1', 'A1',
